@@ -131,6 +131,9 @@ class Model(object):
     def _ok(self, st, ident, label):
         return (("OK",), St("begin", st.mech, None, None, ident, "old" if st.agreed else None, st.nrej), label)
 
+    def hexdecode(self, b):
+        return hexdecode(b)
+
     def resolve_identity(self, s):
         """authorization identity string -> (uid or None, 'numeric'|'name')"""
         if s and all(0x30 <= c <= 0x39 for c in s):
@@ -270,14 +273,14 @@ class Model(object):
             st2 = st._replace(mech=mech)
             if len(args) == 1:
                 return self._mech(st2, mech, None, True)
-            resp = hexdecode(args[1])
+            resp = self.hexdecode(args[1])
             if resp is None:
                 return [self._err(st, "auth:bad-hex"), self._rej(st, "auth:bad-hex-rejected")]
             return self._mech(st2, mech, resp, True)
         if ph == "data" and cmd == b"DATA":
             if len(args) > 1:
                 return [self._err(st, "data:too-many-arguments"), self._rej(st, "data:too-many-arguments-rejected")]
-            resp = hexdecode(args[0]) if args else b""
+            resp = self.hexdecode(args[0]) if args else b""
             if resp is None:
                 return [self._err(st, "data:bad-hex"), self._rej(st, "data:bad-hex-rejected")]
             return self._mech(st, st.mech, resp, False)
@@ -362,6 +365,14 @@ class Tracker(object):
         for st in self.configs:
             for exp, nst, lab in self.model.alts(st, line):
                 out.add(exp[0])
+        return out
+
+    def expectation_labels(self, line):
+        """[(expectation kind, branch label)] over all live model states"""
+        out = []
+        for st in self.configs:
+            for exp, nst, lab in self.model.alts(st, line):
+                out.append((exp[0], lab))
         return out
 
     def phases(self):
